@@ -6,9 +6,9 @@
     walraw    C17  corrupted segments, full output (correspondence only, spec silent)
     walmut    C10  corrupted segments, must not panic
   walseg also compares, on every generated segment, the two independently written layout encoders of the Spec
-  (`encSegment`: cut the stream of usable bytes into pages; `encSegmentOp`: copy records page by page, the one
-  `C17_records` is proved about): same bytes, same record positions and classes — tag `layout=agree`; a
-  disagreement turns the expected text into `LAYOUT-MISMATCH`, i.e. a reported violation.
+  (`encSegment`: cut the stream of usable bytes into pages; `encSegmentOp`: copy records page by page): same
+  bytes, same record positions and classes — tag `layout=agree`; a disagreement turns the expected text into
+  `LAYOUT-MISMATCH`, i.e. a reported violation.  (The equality is also proved: Props/C17.lean `C17_encoders_agree`.)
   Names in the expected (SPEC) text: PostgreSQL's name where it defines one (version 16 table; the generators
   use the magics of 15/16 only) — except that a numeric placeholder printed by the tool for an operation it has
   no name for is accepted (it declines to name, it does not misname); where PostgreSQL defines no name the
@@ -82,9 +82,11 @@ open Spec.Wal in
 def hasDbaseOp (s : WalSegment) : Bool :=
   s.records.any fun r => r.rmid == 4 && (r.info &&& 0xF0 == 0x00 || r.info &&& 0xF0 == 0x10)
 
+/-- `hasStraddle` / `hasXpageBlocks` were the classes of the findings C17-straddling-header / C17-crosspage-blocks
+(repaired by fixes/wal/04, 05): now plain coverage labels -/
 def kfTags (s : Spec.Wal.WalSegment) : List String :=
-  (if hasStraddle s then ["kf:C17-straddling-header"] else []) ++
-  (if hasXpageBlocks s then ["kf:C17-crosspage-blocks"] else []) ++
+  (if hasStraddle s then ["hdr-straddles"] else []) ++
+  (if hasXpageBlocks s then ["xpage-blocks"] else []) ++
   (if hasDbaseOp s then ["kf:C17-dbase-ops"] else [])
 
 /-! ### walseg -/
@@ -147,12 +149,12 @@ def boundarySegs : List WalSegment :=
     -- start addresses: 0 and the last segment below 2^64; trailing never-written pages
     mkSeg [] [heapIns, commit] 0 2,
     mkSeg [] [heapIns, commit] 0xFFFFFFFFFF000000 1,
-    -- known findings: header straddles (8 and 16 bytes left), cross-page record with block references
+    -- header straddles (8 and 16 bytes left), cross-page record with block references (repaired: fixes/wal/04, 05)
     mkSeg [] [plainRec 8144 10 0x00 700, plainRec 100 10 0x10 700, plainRec 40 1 0x00 700],
     mkSeg [] [plainRec 8136 10 0x00 700, plainRec 100 10 0x10 700, plainRec 40 1 0x00 700],
     mkSeg [] [plainRec 8100 10 0x00 700, multi, plainRec 40 1 0x00 701],
     mkSeg [] [{ plainRec 40 4 0x00 700 with xid := 9 }, plainRec 40 4 0x10 9],
-    -- the same two classes with a compact image (zero continuation data in front): witnesses of the known findings
+    -- the same two classes with a compact image (zero continuation data in front): witnesses of the former findings
     mkSeg (zeros 8136) [plainRec 40 10 0x10 700, plainRec 40 1 0x00 700],
     mkSeg (zeros 8100) [heapIns, plainRec 40 1 0x00 700] ]
 
@@ -277,6 +279,7 @@ structure DirCase where
   segs : List Spec.Wal.WalSegment      -- in name order
   files : List (String × Bytes)        -- everything in the directory, shuffled
   limit : Nat
+  negative : Bool := false             -- pass `-limit - 1` instead: "at most a negative number of records" = none (fixes/entry/01)
 
 def genDir (size : Nat) : Gen DirCase := do
   let nseg ← Gen.range 1 4
@@ -302,23 +305,25 @@ def genDir (size : Nat) : Gen DirCase := do
     | 2 => pure total
     | 3 => pure (total + 5)
     | _ => Gen.range 0 (total + 1)
-  return { segs := segs.toList, files, limit }
+  let negative ← Gen.prob 1 12
+  return { segs := segs.toList, files, limit, negative }
 
 def takeLast (n : Nat) (xs : List α) : List α := xs.drop (xs.length - n)
 
 def waldirGen (seed idx size : Nat) : Case :=
   let d := (genDir size).run' (Prng.ofSeed seed idx)
   let model := Model.Wal.scanWALDirectory d.files
-  let recent := Model.Wal.getRecentWALRecords d.files d.limit
+  let limitArg : Int := if d.negative then -(d.limit : Int) - 1 else d.limit
+  let recent := Model.Wal.getRecentWALRecords d.files limitArg
   let version := match model with | .ok s => s.pgVersion | .error _ => ""
   let allViews := d.segs.flatMap (·.view)
-  let spec := showSummaryS d.segs version ++ "|" ++ showRecsS (takeLast d.limit allViews)
+  let spec := showSummaryS d.segs version ++ "|" ++ showRecsS (takeLast (if d.negative then 0 else d.limit) allViews)
   let kf := Spec.Wal.dedup (d.segs.flatMap kfTags)
   let tags := [s!"segs={d.segs.length}", s!"junk={d.files.length - d.segs.length}",
-               (if d.limit == 0 then "limit=0" else if d.limit ≥ allViews.length then "limit>=all" else "limit<all")] ++
+               (if d.negative then "limit<0" else if d.limit == 0 then "limit=0" else if d.limit ≥ allViews.length then "limit>=all" else "limit<all")] ++
               kf ++ (if allViews.isEmpty then [] else ["nt"])
   { tags, model := showM showSummaryM model ++ "|" ++ showM showRecsM recent, spec,
-    args := toString d.limit :: d.files.flatMap fun f => [hexOf (strBytes f.1), hexRle f.2] }
+    args := toString limitArg :: d.files.flatMap fun f => [hexOf (strBytes f.1), hexRle f.2] }
 
 def waldir : Family := { name := "waldir", gen := waldirGen, eval := waldirEval, fixed := 0 }
 
@@ -328,7 +333,7 @@ def waldir : Family := { name := "waldir", gen := waldirGen, eval := waldirEval,
 and of the first record (tot_len, info, rmid) and its first block headers -/
 def walFields : List (Nat × Nat) :=
   [(0, 2), (2, 2), (16, 4), (40, 4), (56, 1), (57, 1), (64, 1), (65, 1), (66, 2), (68, 2), (72, 1), (73, 1),
-   (8192, 2), (8194, 2), (8208, 4), (8216, 4)]
+   (8192, 2), (8194, 2), (8208, 4), (8216, 4), (16386, 2), (16400, 4)]
 
 def mutSegment (seed idx size : Nat) : Bytes :=
   let g : Gen Bytes := do
@@ -350,6 +355,15 @@ def fixedMut : List Bytes :=
   ++ ([0x10, 0x90, 0xFF, 0x80, 0x30].map fun v => Gen.setAt base 65 [v])
   ++ ([0, 32, 33, 252, 253, 254, 255].map fun v => Gen.setAt base 64 [v])
   ++ [Gen.setAt base 2 (le 2 3), Gen.setAt base 2 (le 2 0), Gen.setAt base 2 (le 2 0xFFFF), Gen.setAt base 0 (le 2 0xD10F)]
+  -- reassembly across pages (fixes/wal/04, 05): the page that should continue the record is missing, not a page,
+  -- not flagged, or announces another length; a record over three pages whose last page does so
+  ++ ([12, 14, 6].flatMap fun i =>
+        let f := Spec.Wal.encSegment (boundarySegs.getD i default)
+        let rem := rd 4 (f.drop 8208)
+        [f.take 8192, f.take 16383, Gen.setAt f 8192 (le 2 0xD114), Gen.setAt f 8194 (le 2 0), Gen.setAt f 8194 (le 2 2),
+         Gen.setAt f 8208 (le 4 (rem + 1)), Gen.setAt f 8208 (le 4 (rem - 1)), Gen.setAt f 8208 (le 4 0),
+         Gen.setAt f 8208 (le 4 (rem + 8)), Gen.setAt f 16386 (le 2 0), Gen.setAt f 16400 (le 4 1),
+         Gen.setAt f 16400 (le 4 (2 ^ 32 - 1))])
 
 def mutInput (seed idx size : Nat) : Bytes :=
   if idx < fixedMut.length then fixedMut.getD idx [] else mutSegment seed idx size
